@@ -71,8 +71,29 @@ def run(ctx):
         sh.append(dict(name="cross/batch%d/asan-dbg" % (b // per), src=src, is_text=True, flavour="asan-dbg"))
         if ctx.thorough or b < 3 * per:
             sh.append(dict(name="cross/batch%d/asan-rel" % (b // per), src=src, is_text=True, flavour="asan-rel", primary=False))
+    # fields that hold no cells (zero extents, zero-length array, default-constructed): their streams follow the grammar too
+    sh.append(dict(name="empties/asan-dbg", src=os.path.join(core.HARNESS, "c06_narrow.cpp"), flavour="asan-dbg", defines=("VERIF_EMPTIES_ONLY",)))
+    sh.append(dict(name="empties/asan-rel", src=os.path.join(core.HARNESS, "c06_narrow.cpp"), flavour="asan-rel", defines=("VERIF_EMPTIES_ONLY",), primary=False))
     runs = ctx.run_shards(sh, timeout=7200)
     parsed = 0
+    empties = 0
+    for r in runs:
+        if r is None:
+            continue
+        for line in r.lines.get("@EMPTY", []):
+            name, spec, hx = line.split("\t")
+            f = spec.split(",")
+            desc = []
+            if f[0] == "S":
+                ext = [int(x) for x in f[3].split(":")]
+                desc.append({"tag": 0xAB020010, "payload": 8 * len(ext), "extents": ext})
+            desc.append({"tag": 0xAB010000, "array": True, "m": int(f[1]), "len": 0, "width": int(f[2])})
+            try:
+                fmt.parse(bytes.fromhex(hx), desc)
+                empties += 1
+            except fmt.FormatError as ex:
+                ctx.violation("grammar:empty:%s" % name, "dump of a field without cells breaks the grammar: %s" % ex, shard=r.name, flavour=r.flavour)
+    ctx.stats["empty_field_dumps_accepted_by_independent_parser"] = empties
     for r in runs:
         if r is None:
             continue
@@ -96,7 +117,7 @@ def run(ctx):
               "parsed by the independent grammar reader.  (b) %d golden files written by the pinned revision 9bc2998 (committed under golden/ "
               "with the stack description, hash and expected configuration): each must load, report the recorded configuration and values, "
               "re-dump to the same bytes, and a field built today must dump to the same bytes; hashes and grammar are also checked without any "
-              "covfie code.  non-trivial: writer != reader and >= 1 value needing rounding (narrowing), or a golden; distinct = hash of "
+              "covfie code.  (c) fields without cells (a zero extent in any position, a zero-length array, default-constructed fields): dump, reload, re-dump byte-identical, dump parsed by the independent grammar reader.  non-trivial: writer != reader and >= 1 value needing rounding (narrowing), or a golden; distinct = hash of "
               "(writer, reader, round)") % (npairs, len(stacks), len(man)),
         assumptions=["golden files were produced once by bin/mkgolden from a git worktree of the pinned commit; files of other revisions are out of reach",
                      "layers whose writer did not compile at the pinned revision (covariant_cast, dereference) write no tag of their own: the goldens of their backends pin their bytes too"],
